@@ -1670,6 +1670,26 @@ pub fn generate_post(rng: &mut Rng, n: u64, emit: &mut dyn FnMut(Vec<String>)) {
             longer.extend_from_slice(b"xx");
             all.push(assemble("policy-length.file-longer-than-max", &plain, &render_policy(&expiration, &range(0, longer.len() - 1), sp), table(), &longer).0);
         }
+        // several content-length-range conditions in one policy: EVERY one has to hold (the admissible lengths are the
+        // intersection, not the hull, not the first, not the last range)
+        {
+            let n = file.len();
+            let ranges2 = |a: (usize, usize), b: (usize, usize)| with_conds(&|c| {
+                c.retain(|x| !matches!(x, PCond::Range { .. }));
+                c.push(PCond::Range { lo: a.0, hi: a.1 });
+                c.push(PCond::Range { lo: b.0, hi: b.1 });
+            });
+            // inside both
+            all.push(assemble("policy-ok.two-ranges", &plain, &render_policy(&expiration, &ranges2((0, n + 5), (n.saturating_sub(1), n + 50)), sp), table(), &file).0);
+            // above the first range, inside the second (and inside the hull)
+            all.push(assemble("policy-length.two-ranges-above-first", &plain, &render_policy(&expiration, &ranges2((0, n.saturating_sub(1)), (0, n + 50)), sp), table(), &file).0);
+            // inside the first, below the second
+            all.push(assemble("policy-length.two-ranges-below-second", &plain, &render_policy(&expiration, &ranges2((0, n + 50), (n + 1, n + 60)), sp), table(), &file).0);
+            // in the gap of two disjoint ranges (inside the hull, in neither)
+            all.push(assemble("policy-length.two-ranges-gap", &plain, &render_policy(&expiration, &ranges2((0, n.saturating_sub(1)), (n + 1, n + 60)), sp), table(), &file).0);
+            // the violated range first / last in the document
+            all.push(assemble("policy-length.two-ranges-violated-last", &plain, &render_policy(&expiration, &ranges2((0, n + 50), (0, n.saturating_sub(1))), sp), table(), &file).0);
+        }
         // ---- (e) a field no condition covers
         {
             let mut pl = plain.clone();
